@@ -428,7 +428,10 @@ class DictNode(BaseNode):
         self.rcurl = rcurl
 
 class EmptyNode(BaseNode):
-    pass
+    # BaseNode is a dataclass with eq=True, which sets __hash__ to None; every other node class
+    # restores hashing with unsafe_hash=True.  Dict keys may contain an EmptyNode, e.g. `{(): 1}`.
+    def __hash__(self) -> int:
+        return hash((self.lineno, self.colno))
 
 @dataclass(unsafe_hash=True)
 class BinaryOperatorNode(BaseNode):
